@@ -132,6 +132,45 @@ pub fn run(a: &Args) {
             }
         }
     }
+    // the real watcher (FsWatcherBuilder + inotify): the FIRST notification after the watcher was
+    // built already names its entries (single-notification operations: delete, create-empty)
+    let mut real_bad: Vec<String> = vec![];
+    for (k, op) in ["delete", "create"].iter().enumerate() {
+        let dir = base.join(format!("real{k}"));
+        let _ = std::fs::create_dir_all(dir.join("d"));
+        std::fs::write(dir.join("d").join("a.txt"), "1").unwrap();
+        std::fs::write(dir.join("d").join("b.txt"), "2").unwrap();
+        let cache = assets_manager::AssetCache::new(&dir).unwrap();
+        let listing = |c: &assets_manager::AssetCache| -> Vec<String> {
+            c.load_dir::<String>("d").map(|h| h.read().ids().map(|i| i.to_string()).collect()).unwrap_or_default()
+        };
+        let before = listing(&cache);
+        let expect: Vec<String> = if *op == "delete" {
+            std::fs::remove_file(dir.join("d").join("b.txt")).unwrap();
+            vec!["d.a".into()]
+        } else {
+            std::fs::File::create(dir.join("d").join("c.txt")).unwrap();
+            vec!["d.a".into(), "d.b".into(), "d.c".into()]
+        };
+        let t0 = std::time::Instant::now();
+        let mut now = listing(&cache);
+        while now != expect && t0.elapsed() < std::time::Duration::from_secs(5) {
+            std::thread::sleep(std::time::Duration::from_millis(20));
+            cache.hot_reload();
+            now = listing(&cache);
+        }
+        n += 1;
+        if now != expect {
+            real_bad.push(format!("real watcher, first operation after start = {op} in d/: directory d listed {before:?} before and still {now:?} 5 s later (expected {expect:?})"));
+        }
+    }
+    if !real_bad.is_empty() {
+        let f: String = real_bad
+            .iter()
+            .map(|v| format!("{{\"engine\": \"watchdiff\", \"kind\": \"monitor\", \"class\": \"first-notification-lost\", \"case\": {{\"observed\": {}}}}}\n", jstr(v)))
+            .collect();
+        std::fs::write(format!("{}/watchdiff.violations.jsonl", a.out), f).unwrap();
+    }
     let _ = std::fs::remove_dir_all(&base);
     let _ = a.thorough();
     cases.write(
